@@ -122,7 +122,8 @@ def compose(rng, rel=None):
 
 # values thrown at EVERY field locator in addition to the field-specific complements; the reference model's
 # validity predicate decides for each whether the object is still valid, invalid or unspecified
-GENERIC_BAD = [None, "", 0, 1, 0.0, 1.5, [], {}, "x", True, False, ["a"], {"__bytes__": "abc"}, {"__bytes__": ""}, {"__set__": ["Server"]}, {"__tuple__": ["Server"]}]
+GENERIC_BAD = [None, "", 0, 1, 0.0, 1.5, [], {}, "x", True, False, ["a"], {"__bytes__": "abc"}, {"__bytes__": ""}, {"__set__": ["Server"]}, {"__tuple__": ["Server"]},
+               {"__float__": "inf"}, {"__float__": "nan"}]
 
 
 def with_generic(bads):
